@@ -40,6 +40,9 @@ pub struct Profile {
     pub key_hashers: Vec<KhSpec>,
     /// extra weight on `get` of the hot keys (drives estimator differences)
     pub hot_get: u32,
+    /// medium scale: capacities 64..=400, alphabets of 1.3..3 x capacity drawn almost uniformly,
+    /// prefilled, 600..=2500 operations (ghost lists of ~100 entries, p in the hundreds)
+    pub medium: bool,
 }
 
 pub const ALL_HASHERS: [HSpec; 6] = [HSpec::Fnv(1), HSpec::Fnv(0x9e37), HSpec::Ident, HSpec::Zero, HSpec::Random, HSpec::Fnv(77)];
@@ -72,6 +75,7 @@ impl Profile {
             hashers: DET_HASHERS.to_vec(),
             key_hashers: vec![KhSpec::Ident, KhSpec::Const, KhSpec::Fnv(3), KhSpec::Default],
             hot_get: 0,
+            medium: false,
         }
     }
     pub fn only(mut self, kinds: &[Kind]) -> Profile {
@@ -82,6 +86,10 @@ impl Profile {
 
 fn key(a: u16) -> BoxedStrategy<u16> {
     let hot = a.min(3).max(1);
+    if a > 120 {
+        // medium scale: almost uniform (recurrence comes from the alphabet / capacity ratio)
+        return prop_oneof![1 => 0..hot, 12 => 0..a.max(1)].boxed();
+    }
     prop_oneof![6 => 0..hot, 4 => 0..a.max(1)].boxed()
 }
 
@@ -185,6 +193,9 @@ fn cfg_strategy_inner(kind: Kind, p: &Profile) -> BoxedStrategy<Cfg> {
     let hs4 = (hs.clone(), hs.clone(), hs.clone(), hs.clone()).prop_map(|(a, b, c, d)| [a, b, c, d]);
     let th = p.thorough;
     let tiny = move || if th { prop_oneof![8 => 1usize..=4, 2 => 5usize..=12].boxed() } else { prop_oneof![18 => 1usize..=4, 1 => 5usize..=8, 1 => 9usize..=12].boxed() };
+    let medium = p.medium;
+    let small_cap = move |th: bool| if medium { prop_oneof![3 => 64usize..=160, 2 => 161usize..=400].boxed() } else { small_cap(th) };
+    let tiny = move || if medium { prop_oneof![2 => 1usize..=4, 5 => 40usize..=200].boxed() } else { tiny() };
     match kind {
         Kind::Lru | Kind::LruCb | Kind::LruCbD | Kind::Arc => (small_cap(th), hs4)
             .prop_map(|(a, hs)| {
@@ -228,7 +239,15 @@ fn cfg_strategy_inner(kind: Kind, p: &Profile) -> BoxedStrategy<Cfg> {
             })
             .boxed(),
         Kind::Wtl => {
-            let w = move || if th { prop_oneof![8 => 1usize..=3, 2 => 4usize..=10].boxed() } else { prop_oneof![18 => 1usize..=3, 2 => 4usize..=10].boxed() };
+            let w = move || {
+                if medium {
+                    prop_oneof![2 => 1usize..=4, 5 => 30usize..=150].boxed()
+                } else if th {
+                    prop_oneof![8 => 1usize..=3, 2 => 4usize..=10].boxed()
+                } else {
+                    prop_oneof![18 => 1usize..=3, 2 => 4usize..=10].boxed()
+                }
+            };
             let khs = prop::sample::select(p.key_hashers.clone());
             (w(), w(), w(), 1usize..=64, prop::sample::select(vec![1e-9, 0.01, 0.3, 0.9]), khs, hs4, any::<u64>())
                 .prop_map(|(a, b, c_, samples, fp, kh, hs, seed)| {
@@ -257,7 +276,8 @@ pub fn case_strategy(p: &Profile) -> BoxedStrategy<Case> {
             let cap = cfg.total_cap(kind);
             let lo = (cap + 1) as u16;
             // large capacities get a narrow alphabet (so hits, evictions and ghost hits stay common)
-            let hi = if cap > 8 { (cap + 6).min(250) as u16 } else { (3 * cap + 3) as u16 };
+            let hi = if p3.medium { (3 * cap).min(2000) as u16 } else if cap > 8 { (cap + 6).min(250) as u16 } else { (3 * cap + 3) as u16 };
+            let lo = if p3.medium { (cap + cap / 3) as u16 } else { lo };
             let p4 = p3.clone();
             (Just(kind), Just(cfg), Just(strpick), lo..=hi.max(lo), 0u32..100).prop_flat_map(move |(kind, cfg, strpick, a, prefill)| {
                 let cap = cfg.total_cap(kind);
